@@ -252,6 +252,21 @@ def perm_flag_impl(repo, res):
         res.fail(key, "needs_facet_permutations is never set", im.line(f.node))
         return
     flag_txt = " or ".join(f"({t})" for t in terms)
+    # the flag accumulates over the quadrature rules of the integral: no later rule may reset it
+    key_acc = f"{f.key}:flag-accumulates"
+    res.ob(key_acc)
+    loops = [n for n in walk_no_nested(f.node) if isinstance(n, ast.For)]
+    for a in assigns:
+        if not any(any(x is a for x in ast.walk(lp)) for lp in loops):
+            continue
+        v = a.value
+        self_or = isinstance(v, ast.BoolOp) and isinstance(v.op, ast.Or) and any(isinstance(x, ast.Name) and x.id == "needs_facet_permutations" for x in v.values)
+        aug = isinstance(a, ast.AugAssign) and isinstance(a.op, ast.BitOr)
+        guarded = any(isinstance(n, ast.If) and ast.unparse(n.test).replace(" ", "") == "notneeds_facet_permutations" and any(x is a for b in n.body for x in ast.walk(b))
+                      for n in walk_no_nested(f.node))
+        if not (self_or or aug or guarded):
+            res.fail(key_acc, "needs_facet_permutations is overwritten for every quadrature rule instead of accumulated: the last rule of an "
+                     "integral decides (f('+')*g('-')*dS(degree=4) + g('+')*dS(degree=2))", im.line(a))
     # (1) direct term: some active table has more than one permutation slice
     direct = re.search(r"any\(\(?\s*(\w+)\.shape\[0\] > 1 for \1 in (\w+)\.values\(\)\s*\)?\)", flag_txt) or \
         re.search(r"any\(\(?\s*(\w+)\.is_permuted for \1 in", flag_txt)
